@@ -260,6 +260,9 @@ func runC13Case(w *caseWriter, id string, d pkgDesc, st *c13Stats, rng *rand.Ran
 			}
 		}
 	}
+	if c13Extra != nil {
+		c13Extra(w)
+	}
 	before, _ := fresh()
 	w.line("obaseafter %d", b2i(tokensOf(shared.Info.Overridables) == tokensOf(before.Info.Overridables)))
 	w.line("oend")
@@ -271,6 +274,94 @@ func runC13Case(w *caseWriter, id string, d pkgDesc, st *c13Stats, rng *rand.Ran
 			st.samples = append(st.samples, id+":\n"+doc[:min(len(doc), 900)])
 		}
 	}
+}
+
+// c13Extra: further lines of the case being written (set by the generator of equivalent documents)
+var c13Extra func(w *caseWriter)
+
+// Documents written by hand with the keys as the documentation spells them (the generated documents are rendered from
+// the configuration type and follow whatever its tags say): a format's override block means the same as writing its
+// settings at the top of a document for that format alone. The package metadata of the two must be equal.
+const equivBase = `name: equiv
+arch: amd64
+version: 1.10
+release: "2"
+version_metadata: git7
+maintainer: Base <base@example.com>
+mtime: 2023-11-14T22:13:20Z
+contents:
+  - {src: src/f1, dst: /usr/bin/equiv}
+`
+
+var equivSettings = map[string][2]string{
+	// format: {what the base document says for it, what the override block says (same keys)}
+	"deb":       {"deb:\n  predepends: [base-pd]\n  breaks: [base-breaks]\n  fields: {X-Base: b}\n", "deb:\n  predepends: [over-pd]\n  breaks: [over-breaks]\n  fields: {X-Base: o, X-Over: v}\n"},
+	"rpm":       {"rpm:\n  buildhost: base-host.example\n  group: Base/Group\n  summary: base summary\n  packager: Base Packager <bp@example.com>\n", "rpm:\n  buildhost: over-host.example\n  group: Over/Group\n  summary: over summary\n  packager: Over Packager <op@example.com>\n"},
+	"ipk":       {"ipk:\n  predepends: [base-ipd]\n  tags: [base-tag]\n  abi_version: \"1\"\n", "ipk:\n  predepends: [over-ipd]\n  tags: [over-tag]\n  abi_version: \"2\"\n"},
+	"apk":       {"depends: [base-dep]\nprovides: [base-prov]\n", "depends: [over-dep]\nprovides: [over-prov]\n"},
+	"archlinux": {"archlinux:\n  pkgbase: base-pkgbase\n  packager: Base Arch <ba@example.com>\n", "archlinux:\n  pkgbase: over-pkgbase\n  packager: Over Arch <oa@example.com>\n"},
+}
+
+func indent(s, by string) string {
+	var b strings.Builder
+	for _, l := range strings.Split(strings.TrimRight(s, "\n"), "\n") {
+		b.WriteString(by + l + "\n")
+	}
+	return b.String()
+}
+
+func metaOf(doc, format string) (string, error) {
+	cfg, err := nfpm.ParseWithEnvMapping(strings.NewReader(doc), func(string) string { return "" })
+	if err != nil {
+		return "", err
+	}
+	raw, err := packageShared(&cfg, format)
+	if err != nil {
+		return "", err
+	}
+	o, err := decodePackage(format, raw)
+	if err != nil || o == nil {
+		return "", fmt.Errorf("undecodable: %v", err)
+	}
+	var b strings.Builder
+	for _, f := range o.Meta {
+		if f.K == "datahash" || f.K == "builddate" || f.K == "size" || f.K == "Installed-Size" {
+			continue
+		}
+		fmt.Fprintf(&b, "%s=%s\n", f.K, f.V)
+	}
+	return b.String(), nil
+}
+
+func genC13Equivalents(w *caseWriter, st *c13Stats, rng *rand.Rand) {
+	// A: every format's base settings at the top, every format's other settings in its override block
+	a := equivBase
+	for _, f := range allFormats {
+		a += equivSettings[f][0]
+	}
+	a += "overrides:\n"
+	for _, f := range allFormats {
+		a += "  " + f + ":\n" + indent(equivSettings[f][1], "    ")
+	}
+	c13Extra = func(w *caseWriter) {
+		for _, f := range allFormats {
+			// B_f: the override block's settings written at the top instead of the base's, no override blocks at all
+			b := equivBase
+			for _, g := range allFormats {
+				if g == f {
+					b += equivSettings[g][1]
+				} else {
+					b += equivSettings[g][0]
+				}
+			}
+			ma, ea := metaOf(a, f)
+			mb, eb := metaOf(b, f)
+			same := (ea == nil) == (eb == nil) && ma == mb
+			w.line("oequiv %s %d %s", xs(f), b2i(same), xs(firstTokenDiff(strings.ReplaceAll(ma, "\n", " "), strings.ReplaceAll(mb, "\n", " "))))
+		}
+	}
+	runC13Case(w, "equivalent-documents", pkgDesc{YAML: a}, st, rng)
+	c13Extra = nil
 }
 
 // names no packager is registered under, most of them one edit away from one that is
@@ -366,6 +457,7 @@ func cmdC13(tier string, seed int64, out, statsOut, replay string) {
 		cfg.Overrides = map[string]*nfpm.Overridables{nm: {Depends: []string{"x"}}, "deb": {Depends: []string{"y"}}}
 		runC13Case(w, "unregistered-"+xs(nm), pkgDesc{YAML: marshalConfig(&cfg)}, st, rng)
 	}
+	genC13Equivalents(w, st, rng)
 	// blocks for formats nobody registered that set nothing at all: an unknown format is unknown whatever its block holds
 	for i, blk := range []string{"  pacman:\n", "  pacman: {}\n", "  pacman:\n    scripts: {}\n", "  pacman:\n  deb:\n    depends: [d]\n", "  zst: {}\n  rpm:\n    depends: [r]\n"} {
 		runC13Case(w, fmt.Sprintf("unregistered-empty-block-%d", i), pkgDesc{YAML: "name: x\narch: amd64\nversion: 1.0.0\noverrides:\n" + blk}, st, rng)
